@@ -257,9 +257,11 @@ def b_optimizer(tier):
                 continue
             if (o["drop_args"] and uses_a) or (o["drop_kwargs"] and uses_k):
                 continue      # dropping a parameter the class itself uses is not a legitimate use of the optimizer
-            if o["inline_cache"] and not (o["drop_args"] and o["drop_kwargs"]):
-                continue      # inline_cache inlines the (type(expr), expr) key: documented to be valid only without extra arguments
             if sname == "PlainCachedRenamer" and not (o["drop_args"] and o["drop_kwargs"]) and False:
+                continue
+            if o["inline_cache"] and "get_cache_key" not in vars(cls):
+                # inline_cache inlines the key (type(expr), expr): the rewriting "requires some attention from the user to make sure all transformations applied are
+                # valid" (module comment) -- valid for classes whose get_cache_key is that key (as in test/testlib.py), not for the default key with extra arguments
                 continue
             with warnings.catch_warnings():
                 warnings.simplefilter("ignore")
@@ -296,6 +298,20 @@ def b_optimizer(tier):
                                        expected=outcome.describe(x) + f" calls={getattr(pm, 'calls', None)}",
                                        actual=outcome.describe(r) + f" calls={getattr(om, 'calls', None)}",
                                        functions=["optimize_mapper"]))
+            # one optimized instance called with DIFFERENT extra arguments in turn: each result is what a fresh plain instance gives for those arguments
+            if cached and (uses_a or uses_k):
+                om2 = ocls()
+                turns = ([((1,), {}), ((2,), {}), ((1,), {})] if uses_a else []) + ([((), {"k": 2}), ((), {"k": 3})] if uses_k else [])
+                for (a, kw) in turns:
+                    for e in dom[:8]:
+                        r = outcome.run(lambda: om2(e, *a, **kw))
+                        x = outcome.run(lambda: cls()(e, *a, **kw))
+                        b.case(("turns", sname, bits, repr(e), repr(a), repr(kw)), nontrivial=any(bits))
+                        if not ((r[0] == x[0]) and (r[0] == "exc" or _tree_typed_eq(r[1], x[1]))):
+                            cause = "inline-cache-key-ignores-extra-arguments" if o["inline_cache"] else "result-shared-between-arguments"
+                            b.fail(Failure("optimizer", f"cause={cause} mode=argument-turns subject={sname} options={o} args={a} kw={kw} expr={e!r}",
+                                           dict(kind="opt-turns", subject=sname, options=o, args=repr(a), kw=repr(kw), expr=trees.src(e)), expected=outcome.describe(x)[:150],
+                                           actual=outcome.describe(r)[:150], functions=["optimize_mapper", "_RecInliner.visit_Call"]))
     return b
 
 
